@@ -153,6 +153,8 @@ class _Handle:
 
 
 class ModelFS:
+    root_path = ROOT
+
     def __init__(self, written_sizes=(), walk_fuel=64):
         self.root = Node('dir', ino=1)
         self.root.children = {}
